@@ -798,7 +798,8 @@ def record_for(inst, shared=None):
     elif api == "project" and gk == "g2d":
         c = np.array(centre)
         far = max([1.0] + [float(np.max(np.abs(p - c))) / tau for p in recv if np.all(np.isfinite(p))])
-        S = min(4096, _pow2_floor(MAXRS / (2.0 * far)))
+        big = max([1.0] + [float(np.max(np.abs(p))) / tau for p in recv if np.all(np.isfinite(p))])   # absolute size: q is not relative to c
+        S = min(4096, _pow2_floor(MAXRS / (2.0 * far)), _pow2_floor(0.9 * LIM / big))
         aq, D = line_direction((angle + 90.0) if angle is not None else 0.0)
         rec.update({"S": S, "s": inst["sx"], "c": [inst["cy"], inst["cx"]], "q": _fix(recv, S / tau), "aq": aq, "D": D,
                     "oy": inst["oy"], "ox": inst["ox"], "dyadic": bool(float(np.log2(tau)).is_integer())})
